@@ -724,6 +724,7 @@ int main(int argc, char **argv) {
         for (int ids = 0; ids < nids; ids++)
           for (size_t oi = 0; oi < eos.size(); oi++) {
             if (!thorough && (oi != (pi + ids) % eos.size() || ids != int((pi + mask) % 2))) continue;
+            if (thorough && ids == 2 && oi != (pi + mask) % eos.size()) continue;  // colliding-bucket ids: one edge order per perm
             b.attr = ((pi + oi) % 2) ? patternAttr(n) : std::string(n, '0');
             Case c; c.kind = 'G'; c.g = b; c.x.perm = perms[pi]; c.x.ids = ids; c.x.eo = eos[oi]; c.x.vo = int((pi / 2 + oi) % 2);
             push(c);
@@ -834,7 +835,7 @@ int main(int argc, char **argv) {
       "presentations: all n! relabellings for n<=5 (12 fixed for n=6, up to 14 fixed for n>=7) into id sets {0..n-1}, {large sparse}, "
       "{multiples of 13 = colliding hash buckets}; ALL edge insertion orders for n<=4 (6 fixed beyond), both vertex insertion orders; "
       "node attributes: all 4^n assignments of 2 names x 2 masses for n<=4 (family A/D), uniform + one pattern elsewhere. "
-      "bound (" + a.tier + "): " + (thorough ? "everything above" : "n<=4: one of the 2 id sets and vertex orders per (perm,edge order); n=5: one edge order and id set per perm; n=6: 2 of the 12 relabellings per graph; named: 6 relabellings") +
+      "bound (" + a.tier + "): " + (thorough ? "everything above (n=5 with the third id set: one of the 6 edge orders per perm)" : "n<=4: one of the 2 id sets and vertex orders per (perm,edge order); n=5: one edge order and id set per perm; n=6: 2 of the 12 relabellings per graph; named: 6 relabellings") +
       ". oracle: adjacency-matrix BFS hop counts (Dist labels), union-find components (decoupleIsolatedSubGraphs, breakIntoStructures, "
       "breakIntoMotifs), set equality of vertices/edges after reduceGraph+expandGraph, connected-and-no-isolated-vertex (singleNetwork BF/DF from every "
       "start, isSingleStructure), equivalence by construction for relabelled copies (isStructureEquivalent both directions, findStructureId), "
